@@ -52,18 +52,45 @@ type cbFrame struct {
 	defers  []string
 }
 
-func cbFuncElem(t ast.Expr) bool {
-	a, ok := t.(*ast.ArrayType)
+// cbFuncElem: a slice of functions - the element a function type, written out or through a type / alias declared in
+// the package (`type responseCallbackFunc = func(api.ResponseMessage)`); the slice itself may be a declared type too
+func cbFuncElem(t ast.Expr, local map[string]ast.Expr) bool {
+	resolve := func(e ast.Expr) ast.Expr {
+		for i := 0; i < 6; i++ {
+			switch x := e.(type) {
+			case *ast.ParenExpr:
+				e = x.X
+				continue
+			case *ast.Ident:
+				if d, ok := local[x.Name]; ok {
+					e = d
+					continue
+				}
+			}
+			break
+		}
+		return e
+	}
+	a, ok := resolve(t).(*ast.ArrayType)
 	if !ok {
 		return false
 	}
-	_, isFn := a.Elt.(*ast.FuncType)
+	_, isFn := resolve(a.Elt).(*ast.FuncType)
 	return isFn
 }
 
 // cbRegistries: the callback registries of the struct by TYPE
 func cbRegistries(files []*ast.File, typ string) map[string]string {
 	out := map[string]string{}
+	local := map[string]ast.Expr{}
+	for _, f := range files {
+		ast.Inspect(f, func(n ast.Node) bool {
+			if ts, ok := n.(*ast.TypeSpec); ok {
+				local[ts.Name.Name] = ts.Type
+			}
+			return true
+		})
+	}
 	for _, f := range files {
 		ast.Inspect(f, func(n ast.Node) bool {
 			ts, ok := n.(*ast.TypeSpec)
@@ -73,15 +100,12 @@ func cbRegistries(files []*ast.File, typ string) map[string]string {
 			if st, ok := ts.Type.(*ast.StructType); ok {
 				for _, fl := range st.Fields.List {
 					for _, nm := range fl.Names {
-						switch t := fl.Type.(type) {
-						case *ast.MapType:
-							if cbFuncElem(t.Value) {
+						if mt, ok := fl.Type.(*ast.MapType); ok {
+							if cbFuncElem(mt.Value, local) {
 								out[nm.Name] = "response"
 							}
-						case *ast.ArrayType:
-							if cbFuncElem(t) {
-								out[nm.Name] = "result"
-							}
+						} else if cbFuncElem(fl.Type, local) {
+							out[nm.Name] = "result"
 						}
 					}
 				}
